@@ -106,6 +106,24 @@ def _alarm(signum, frame):  # pragma: no cover
     raise JobTimeout('job exceeded its time limit')
 
 
+import contextlib
+
+
+@contextlib.contextmanager
+def time_limit(seconds: int):
+    """Per-case time limit nested inside the job alarm: raises JobTimeout after `seconds`; restores the job's remaining time."""
+    import time as _t
+    t0 = _t.time()
+    remaining = signal.alarm(seconds)
+    try:
+        yield
+    finally:
+        signal.alarm(0)
+        if remaining:
+            left = int(remaining - (_t.time() - t0))
+            signal.alarm(max(1, left))
+
+
 def _init(modname: str, tier: str) -> None:
     global _MOD, _TIER
     _MOD = importlib.import_module(modname)
@@ -372,6 +390,7 @@ def run_check(prop: str, tier: str, workers: int = 16, only_label: Optional[str]
 def run_replay(prop: str, path: str) -> int:
     mod = importlib.import_module(f'mc.props.{prop.lower()}')
     data = json.load(open(path, encoding='utf-8'))
+    signal.signal(signal.SIGALRM, _alarm)      # per-case time limits (core.time_limit) work in replays too
     if hasattr(mod, 'init_worker'):
         mod.init_worker()
     case = unjson(data['case'])
